@@ -246,14 +246,47 @@ def body(case, ctx):
         ctx.nt(rc, sample=len(ctx.samples) < 3)
 
 
+# ---- coverage-guided byte-level campaign on the error text (thorough tier; vlib/atheris_target.py)
+FUZZ_MAX_LEN = 600
+
+
+def fuzz_prepare(ctx):
+    pass
+
+
+def fuzz_seeds(ctx):
+    return [make_traceback('ValueError', 'boom: <zq9a>', 2, True).encode('utf8'), make_traceback('Custom', 'x', 1, False).encode('utf8'),
+            (syntax_report('x = (', False) or '').encode('utf8'), b'{#x}{/x}<zq9b>', b'']
+
+
+def fuzz_one(data, ctx):
+    if data[:1] == b'\x00':
+        text, kind = data[1:], 'bytes'
+        spec = {'kind': 'bytes', 'text': text.decode('latin1')}
+    else:
+        spec = {'kind': 'text', 'text': data.decode('utf8', 'ignore')}
+    body([spec, None if len(data) % 3 else ['/app/<zq9f>.py'], '/', 'GET'], ctx)
+    return True
+
+
 def shards(tier, seed):
     n = 200 if tier == 'quick' else 12000
-    return [{'n': n} for _ in range(16)]
+    out = [{'n': n} for _ in range(16 if tier == 'quick' else 15)]
+    if tier != 'quick':
+        out.append({'part': 'atheris', 'runs': 40000})     # ~150 exec/s: every input builds a whole failsafe application
+    return out
 
 
 def run_shard(spec, ctx):
+    if spec.get('part') == 'atheris':
+        from vlib.shard import run_atheris
+        run_atheris(ctx, 'C20', spec['runs'])
+        return
     ctx.hyp(strategy(), body, spec['n'], kind='case')
 
 
 def replay(case, kind, ctx):
+    if isinstance(case, dict) and 'bytes' in case:
+        fuzz_one(case['bytes'].encode('latin1'), ctx)
+        return
     body(case, ctx)
